@@ -387,7 +387,7 @@ def tparmV (v : Variant) (prog : Bytes) (params : List Value) (svars : Vars) : B
 
 /-- THE SWITCH: the variant that mirrors the tree under check.  Change `pinned` to `repaired` once
 fixes/C07-*.patch are committed to /repo. -/
-def current : Variant := pinned
+def current : Variant := repaired
 
 def tparm (prog : Bytes) (params : List Value) (svars : Vars) : Bytes × Vars := tparmV current prog params svars
 
